@@ -18,6 +18,14 @@ Proof.
   intros H Hl. apply andb_true_iff in H. destruct H as [H1 H2]. f_equal; [lia|]. apply IH; [exact H2 | lia].
 Qed.
 
+(** The capped add-back ([WorkerResources::add] after the drift repair) is the plain one as long as
+    the result stays within the cap. *)
+Lemma res_add_cap_id have ask cap : Forall2 (fun x c => x <= c) (res_add have ask) cap -> res_add_cap have ask cap = res_add have ask.
+Proof.
+  revert ask cap; induction have as [|h ht IH]; intros [|a at_] cap H; cbn [res_add res_add_cap] in *; try reflexivity.
+  inversion H as [|x c l l' Hxc Hr]; subst. f_equal; [lia | apply IH; exact Hr].
+Qed.
+
 Lemma res_fits_sub_le have ask : res_fits have ask = true -> length ask = length have ->
   Forall2 (fun f h => f <= h) (res_sub have ask) have.
 Proof.
@@ -29,13 +37,14 @@ Qed.
     a worker whose free resources could hold the request. *)
 Theorem reservation_roundtrip w t rq w1 w2 a p f :
   w_assign w = Sn a p f -> tid_mem t a = false -> res_fits f rq = true -> length rq = length f ->
+  Forall2 (fun x c => x <= c) f (w_res w) ->
   insert_sn_task w t rq = Ok w1 -> remove_sn_task w1 t rq = Ok w2 ->
   w_assign w2 = Sn (tid_remove t (tid_insert t a)) p f.
 Proof.
-  intros Ha Hm Hf Hl H1 H2. unfold insert_sn_task in H1. rewrite Ha, Hm in H1. inversion H1; subst. clear H1.
+  intros Ha Hm Hf Hl Hcap H1 H2. unfold insert_sn_task in H1. rewrite Ha, Hm in H1. inversion H1; subst. clear H1.
   unfold remove_sn_task in H2. cbn in H2.
   destruct (tid_mem t (tid_insert t a)); inversion H2; subst. cbn.
-  rewrite (res_sub_add _ _ Hf Hl). reflexivity.
+  rewrite res_add_cap_id; rewrite (res_sub_add _ _ Hf Hl); [reflexivity | exact Hcap].
 Qed.
 
 (** A multi-node placement is only made on free workers: [set_mn_task] refuses (panics) otherwise,
